@@ -9,7 +9,8 @@ META = {
         "design_ref": "DESIGN.md §3 R-HASH/R-STATIC/R-AMBIENT, §4 C17",
         "note": "Trusted: third-party crates are deterministic; ordered std containers iterate as a function of their contents; audit "
                 "rows (audit/hash_sites.toml) for the four unique-match lookups and one diagnostic-only loop, each additionally "
-                "checked to accumulate nothing.",
+                "checked to accumulate nothing. A Vec collected from a hash collection counts as sorted only if the comparator / key "
+                "closure compares the whole element or the map key (a non-identifying key leaves ties in hash order).",
         "technique": "static analysis: MIR call-site enumeration + intra-procedural dataflow (iterator sink classification), "
                      "who-may-write inventory of statics",
     },
@@ -21,9 +22,11 @@ META["C18"] = {
              "and each must be discharged by an audit row whose class is admissible for its zone; grammar actions are additionally "
              "scanned textually. A fuzzer samples byte strings; this enumerates the code that could panic.",
     "design_ref": "DESIGN.md §3 R-PANIC/R-GACT, §4 C18",
-    "note": "Trusted: lalrpop runtime + generated tables, std; LOOKUP rows (well-scopedness after checking); termination and stack depth "
-            "are not decided. Known finding: the RISC-V backend's print_i64 is an unconditional panic.",
-    "technique": "static analysis: whole-program call graph over MIR + panic-site inventory against an audited table; grammar action scan",
+    "note": "Trusted: lalrpop runtime + generated tables, std; LOOKUP rows (well-scopedness after checking). Termination: R-DESCENT decides "
+            "that every recursion cycle of the pipeline is a structural descent (or an audited renaming), so recursion depth is bounded "
+            "by the program; loops and stack size are not decided. Known finding: the RISC-V backend's print_i64 is an unconditional panic.",
+    "technique": "static analysis: whole-program call graph over MIR + panic-site inventory against an audited table; grammar action scan; "
+                 "SCC decomposition with per-call-site provenance (structural descent)",
 }
 
 META["C01"] = {
@@ -31,9 +34,12 @@ META["C01"] = {
              "enumerated completely). Types do not enforce the chain (Prog has the same type before and after uniquify/linearize), "
              "and no test runs the pipeline end to end on the middle stages.",
     "design_ref": "DESIGN.md §3 R-WIRE, §4 C01",
-    "note": "Decides only the wiring clause (a necessary condition). The behavioural statement - same bytes on stdout, exit status - "
-            "quantifies over run-time values of generated code and is not decided here.",
-    "technique": "static analysis: must-call / dominator / provenance rules over MIR of the driver",
+    "note": "Decides the wiring clause and, as a conjunction, every rule of the stage properties on the x86-64 path (C02-C06, C14, C20; the "
+            "x86-64 calling convention of C13 is in C06's list): each reports constructs that change what some compiled executable does. "
+            "The behavioural statement itself - same bytes on stdout, exit status - quantifies over run-time values and is not decided; "
+            "the two let/clause capture sites of C02 are genuine C01 defects too and are listed as known findings.",
+    "technique": "static analysis: must-call / dominator / provenance rules over MIR of the driver, plus the rules of the stage properties "
+                 "(provenance, abstract interpretation of emission functions, symbolic machine, C abstract interpretation)",
 }
 
 META["C03"] = {
@@ -41,8 +47,10 @@ META["C03"] = {
              "dominator rule for uniquify-before-focus, decision-region enumeration for the Term<Cns> wildcards. Each is a necessary "
              "condition of C03 whose violation changes behaviour; unit tests exercise single terms only.",
     "design_ref": "DESIGN.md §3 R-TRAV/R-WIRE/R-SHAPE (+R-FRESH/R-MAXID/R-SHADOW), §4 C03",
-    "note": "Partial: decides traversal completeness, identifier discipline and stage order, not the order of effects nor semantic equivalence.",
-    "technique": "static analysis: per-impl field provenance (MIR), dominators, discriminant decision-region path enumeration",
+    "note": "Partial: decides traversal completeness, identifier discipline, stage order and - R-BINDORDER - the order in which focusing "
+            "lifts the subterms of one construct (read from the nesting of the continuation closures: declaration order within a "
+            "construct, first argument first in bind_many). Semantic equivalence as a whole is not decided.",
+    "technique": "static analysis: per-impl field provenance (MIR), dominators, discriminant decision-region path enumeration, closure-nesting order with capture provenance",
 }
 META["C05"] = {
     "level": "Exhaustive structural rules over the AxCut traversal traits, must-dataflow for the free-variable annotations, dominator "
@@ -57,7 +65,7 @@ META["C12"] = {
     "level": "Panic-site closure of the post-check pipeline with the annotation and shape classes discharged by checked typestate / "
              "reachability rules; finite site population enumerated completely from the resolved call graph.",
     "design_ref": "DESIGN.md §3 R-PANIC/R-ANNOT/R-SHAPE/R-TRAV, §4 C12",
-    "note": "Partial: decides 'no internal failure' up to the audited LOOKUP invariants; does not type-check intermediate programs. "
+    "note": "R-FVSCOPE: free-variable collection on unfocused Core removes a binder only from the set of its own body (shadowing before uniquify). Partial: decides 'no internal failure' up to the audited LOOKUP invariants; does not type-check intermediate programs. "
             "Known finding: rv64 print_i64 panics.",
     "technique": "static analysis: call-graph panic inventory + must-dataflow typestate + decision-region enumeration",
 }
@@ -67,7 +75,7 @@ META["C02"] = {
              "table rules; decides the 'never captures' and 'generated names never coincide with user names' clauses structurally "
              "for all programs. The two capture sites it reports are genuine and listed as known findings.",
     "design_ref": "DESIGN.md §4 C02 (R-HYG, R-SEED), §3 R-ENUM/R-TRAV",
-    "note": "Partial: semantic equivalence of the translation is not decided. Known findings: capture under let and pattern binders.",
+    "note": "R-BINDERS: every field the checker binds (add_var/add_covar/add_types) is inserted by UsedBinders; R-FVSCOPE as in C12. Partial: semantic equivalence of the translation is not decided. Known findings: capture under let and pattern binders.",
     "technique": "static analysis: forward taint + backward provenance on MIR aggregates, dominator rules, enum-map extraction, grammar reader",
 }
 
@@ -97,8 +105,11 @@ META["C06"] = {
              "(R-CYCLE: scratch register / reserved slot exactness over all small move trees) of this backend are included. Golden tests pin text for 8 programs with everything in "
              "registers; spill arms, rdx/rax special cases and large literals are covered here.",
     "design_ref": "DESIGN.md §4 C06-C08 (R-ENUM backend segment, R-SPILL realised as symbolic template validation), §3 R-IMM",
-    "note": "Narrow: arithmetic, comparison, move and literal templates plus dispatch tables. Heap operations, closures, jump tables "
-            "and whole-program behaviour of generated code are not decided.",
+    "note": "Arithmetic, comparison, move and literal templates, dispatch tables, and - R-MEM - the memory-management sequences "
+            "(store/load of 0..7 values across linked blocks, share, erase, acquire with both free lists, lazy erasure of children) "
+            "validated on every path of the emitted code against a reference semantics of the reference-counting scheme, for "
+            "contexts straddling the register/spill boundary. Statement-level composition (which contexts Let/Switch/Create pass), "
+            "closures' code pointers, jump tables and whole-program behaviour are not decided.",
     "technique": "static analysis: abstract interpretation of MIR emission functions + symbolic execution of the emitted instruction templates (syntactic equality, no solver)",
 }
 META["C07"] = {
@@ -108,8 +119,11 @@ META["C07"] = {
              "(R-CYCLE: scratch register / reserved slot exactness over all small move trees) of this backend are included. Golden tests pin text for 8 programs with everything in "
              "registers; spill arms, rdx/rax special cases and large literals are covered here.",
     "design_ref": "DESIGN.md §4 C06-C08 (R-ENUM backend segment, R-SPILL realised as symbolic template validation), §3 R-IMM",
-    "note": "Narrow: arithmetic, comparison, move and literal templates plus dispatch tables. Heap operations, closures, jump tables "
-            "and whole-program behaviour of generated code are not decided.",
+    "note": "Arithmetic, comparison, move and literal templates, dispatch tables, and - R-MEM - the memory-management sequences "
+            "(store/load of 0..7 values across linked blocks, share, erase, acquire with both free lists, lazy erasure of children) "
+            "validated on every path of the emitted code against a reference semantics of the reference-counting scheme, for "
+            "contexts straddling the register/spill boundary. Statement-level composition (which contexts Let/Switch/Create pass), "
+            "closures' code pointers, jump tables and whole-program behaviour are not decided.",
     "technique": "static analysis: abstract interpretation of MIR emission functions + symbolic execution of the emitted instruction templates (syntactic equality, no solver)",
 }
 META["C08"] = {
@@ -119,8 +133,11 @@ META["C08"] = {
              "(R-CYCLE: scratch register / reserved slot exactness over all small move trees) of this backend are included. Golden tests pin text for 8 programs with everything in "
              "registers; spill arms, rdx/rax special cases and large literals are covered here.",
     "design_ref": "DESIGN.md §4 C06-C08 (R-ENUM backend segment, R-SPILL realised as symbolic template validation), §3 R-IMM",
-    "note": "Narrow: arithmetic, comparison, move and literal templates plus dispatch tables. Heap operations, closures, jump tables "
-            "and whole-program behaviour of generated code are not decided. The RISC-V backend cannot print (see C18/C12 known finding).",
+    "note": "Arithmetic, comparison, move and literal templates, dispatch tables, and - R-MEM - the memory-management sequences "
+            "(store/load of 0..7 values across linked blocks, share, erase, acquire with both free lists, lazy erasure of children) "
+            "validated on every path of the emitted code against a reference semantics of the reference-counting scheme, for "
+            "contexts straddling the register/spill boundary. Statement-level composition (which contexts Let/Switch/Create pass), "
+            "closures' code pointers, jump tables and whole-program behaviour are not decided. The RISC-V backend cannot print (see C18/C12 known finding).",
     "technique": "static analysis: abstract interpretation of MIR emission functions + symbolic execution of the emitted instruction templates (syntactic equality, no solver)",
 }
 META["C13"] = {
@@ -157,15 +174,18 @@ META["C20"] = {
              "boundaries), structural checks of the driver template and its instantiation, and the folded argument shuffles for all "
              "supported parameter counts. Found and repaired: INT64_MIN negation overflow, atoi truncation.",
     "design_ref": "DESIGN.md §4 C20 (R-CINT, R-NEEDLE, R-ARG64, R-ARGC, R-ARGMOV, R-RET)",
-    "note": "Partial: decimal correctness is decided up to digit range/count/contiguity; the C library and OS are trusted.",
-    "technique": "static analysis: interval abstract interpretation over clang's JSON AST, template/needle counting, folded emission lists on the symbolic machine",
+    "note": "Decimal correctness of the print primitives is decided in full for all int64 values (sign, weight of every digit, number of "
+            "digits, newline, exact write range) by the relational abstract interpreter; helper functions, loops and chunked variants are "
+            "followed, code it cannot follow is an analysis error, never a violation. The C library and OS are trusted.",
+    "technique": "static analysis: interval + relational (x = (|v| div D) mod m) abstract interpretation over clang's JSON AST with inlining and loop unrolling, template/needle counting, folded emission lists on the symbolic machine",
 }
 META["C15"] = {
     "level": "Error-discipline rules over the resolved program of the checker (dominators, provenance, typestate), enumerating every "
              "zip, insert, look-up and Result-producing call site: the ways a single ill-typed edit can slip through are closed "
              "structurally rather than sampled by mutation of test programs.",
     "design_ref": "DESIGN.md §4 C15 (R-ZIP, R-DUP, R-NODUP, R-LOOKUP, R-RESULT)",
-    "note": "Rejection side only: that every well-typed program is accepted, and the type equality itself, are not decided.",
+    "note": "Rejection side only: that every well-typed program is accepted, and the type equality itself, are not decided. R-LOOKUP folds "
+            "lookup_var/lookup_covar over every context of up to 3 bindings (shadowing table).",
     "technique": "static analysis: dominator/provenance rules on MIR call sites, must-dataflow typestate, call-graph panic inventory",
 }
 META["C16"] = {
